@@ -1,0 +1,56 @@
+//go:build verif
+
+package app
+
+// Add-only hooks for the verification harness of property C10 (/verif). Thin exported wrappers,
+// no change of behaviour. Only compiled with -tags verif.
+
+// VerifC10PackBase64 is id16.PackBase64.
+func VerifC10PackBase64(k [16]byte) string { return id16(k).PackBase64() }
+
+// VerifC10UnpackBase64 is unpackBase64.
+func VerifC10UnpackBase64(s string) string { return unpackBase64(s) }
+
+// VerifC10Id16FromBase64 is id16FromBase64.
+func VerifC10Id16FromBase64(s string) ([16]byte, error) {
+	k, err := id16FromBase64(s)
+	return [16]byte(k), err
+}
+
+// VerifC10Id16FromTruncatedBase64 is id16FromTruncatedBase64.
+func VerifC10Id16FromTruncatedBase64(s string) ([16]byte, error) {
+	k, err := id16FromTruncatedBase64(s)
+	return [16]byte(k), err
+}
+
+// VerifC10KidToKey is kidToKey (panics like the original).
+func VerifC10KidToKey(kid [16]byte) [16]byte { return [16]byte(kidToKey(id16(kid))) }
+
+// VerifC10KeyToKid is keyToKid (panics like the original).
+func VerifC10KeyToKid(key [16]byte) [16]byte { return [16]byte(keyToKid(id16(key))) }
+
+// VerifC10KidFromString is kidFromString.
+func VerifC10KidFromString(s string) [16]byte { return [16]byte(kidFromString(s)) }
+
+// VerifC10URLSafeBase64 is urlSafeBase64.
+func VerifC10URLSafeBase64(s string) string { return urlSafeBase64(s) }
+
+// VerifC10RepEnc returns, for a representation of a loaded asset, whether it is pre-encrypted,
+// whether encryption data was prepared, and the key id / key / iv prepared by addEncryption.
+func VerifC10RepEnc(s *Server, assetPath, repID string) (found, preEncrypted, hasEncData bool, kid, key [16]byte, iv []byte) {
+	a, ok := s.assetMgr.assets[assetPath]
+	if !ok {
+		return
+	}
+	r, ok := a.Reps[repID]
+	if !ok {
+		return
+	}
+	found, preEncrypted = true, r.PreEncrypted
+	if r.encData != nil {
+		hasEncData = true
+		kid, key = [16]byte(r.encData.keyID), [16]byte(r.encData.key)
+		iv = append([]byte{}, r.encData.iv...)
+	}
+	return
+}
